@@ -244,19 +244,33 @@ fn main() {
     // ---- Types.lean: all supported structs and plain enums
     let mut types = String::new();
     types.push_str("-- GENERATED by rs2lean from /repo/src — do not edit\nimport Statrs.Basic\nset_option linter.unusedVariables false\nnamespace Statrs.Gen\nopen Statrs\n\n");
-    for e in idx.enums.values() {
+    let cx0 = new_ctx(&idx, &["crate".to_string()], None, Ty::Unit, HashMap::new(), "");
+    let mut enum_order: Vec<&EnumInfo> = idx.enums.values().collect();
+    enum_order.sort_by_key(|e| e.payloads.iter().any(|p| p.is_some()));
+    for e in enum_order {
         if !e.plain || e.variants.is_empty() {
             continue;
         }
         types.push_str(&format!("/-- {} -/\ninductive {} where\n", e.file, e.name));
-        for v in &e.variants {
-            types.push_str(&format!("  | {}\n", lean_ident(v)));
+        let mut good = true;
+        let mut body = String::new();
+        for (v, p) in e.variants.iter().zip(e.payloads.iter()) {
+            match p {
+                None => body.push_str(&format!("  | {}\n", lean_ident(v))),
+                Some(t) => match cx0.lean_ty(t) {
+                    Ok(lt) => body.push_str(&format!("  | {} (x : {})\n", lean_ident(v), lt)),
+                    Err(_) => good = false,
+                },
+            }
         }
+        if !good {
+            continue;
+        }
+        types.push_str(&body);
         types.push_str("  deriving Repr, DecidableEq, Inhabited\n\n");
     }
     // structs in dependency order
     let mut emitted: BTreeSet<String> = BTreeSet::new();
-    let cx0 = new_ctx(&idx, &["crate".to_string()], None, Ty::Unit, HashMap::new(), "");
     for _round in 0..6 {
         for s in idx.structs.values() {
             if emitted.contains(&s.name) || !s.supported {
